@@ -506,3 +506,39 @@ def claimed_name_grid(env):
     return dict(name='claimed_name_grid', validates='the listener side on the real crate against a dialer that is not anemo: 24 combinations of claimed name x certificate name x listener configuration; admitted (acknowledged and listed) exactly when the claimed name is one the listener accepts AND the certificate is valid for a name the listener accepts',
                 cases=len(cells), failed=fails, ok=not fails, props=['C14'],
                 clause='a dialer is admitted only if the network name it claims is one the listener accepts and its certificate is valid for an accepted name; a peer that claims one network\'s name while presenting a certificate issued for another network is rejected')
+
+
+def auth_scenarios(env):
+    """C20 on the real layer: every allow-list over 2 peers x sender (absent / listed / unlisted) x direction marker (none / inbound / outbound),
+    and an application-defined authorizer whose refusal is a full response (status, headers, body)"""
+    p, q, r = [1] * 32, [2] * 32, [3] * 32
+    fails, cases = [], 0
+    for allowed in ([], [p], [p, q]):
+        for sender in (None, p, q, r):
+            for direction in (None, 'inbound', 'outbound'):
+                if sender is None:
+                    exp = dict(status=500, inner_calls=0)
+                elif sender in allowed:
+                    exp = dict(status=200, inner_calls=1)
+                else:
+                    exp = dict(status=404, inner_calls=0)
+                args = dict(allowed=allowed, sender=sender, direction=direction)
+                got = _run('auth', args, env)
+                cases += 1
+                if got.get('status') != exp['status'] or got.get('inner_calls') != exp['inner_calls']:
+                    fails.append(dict(scenario='auth', args=args, expected=exp, observed=got))
+    for accept in (False, True):
+        args = dict(allowed=[], sender=p, custom=True, accept=accept)
+        got = _run('auth', args, env)
+        cases += 1
+        if accept:
+            exp = dict(status=200, inner_calls=1, body=list(b'payload-ok'))
+            ok = got.get('status') == 200 and got.get('inner_calls') == 1 and got.get('body') == exp['body']
+        else:
+            exp = dict(status=429, inner_calls=0, body=list(b'refused because ...'), headers={'retry-after': '30', 'x-refused-by': 'custom'})
+            ok = got.get('status') == 429 and got.get('inner_calls') == 0 and got.get('body') == exp['body'] and got.get('headers') == exp['headers']
+        if not ok:
+            fails.append(dict(scenario='auth', args=args, expected=exp, observed=got))
+    return dict(name='auth_scenarios', validates='the authorization layer of anemo-tower as built by RequireAuthorizationLayer on the real crate: the allow-list decision whatever other metadata the request carries, and that a refusal is EXACTLY the authorizer\'s response',
+                cases=cases, failed=fails, ok=not fails, props=['C20'],
+                clause='the wrapped service is invoked iff the authorizer accepted; the allow-list accepts exactly the listed authenticated senders (NotFound for others, InternalServerError without identity); a refused request receives exactly the authorizer\'s response')
